@@ -74,7 +74,7 @@ Definition tables_eqb (a b : tables) : bool :=
   let req (x y : row) := (r_id x =? r_id y) && (r_par x =? r_par y) && name_eqb (r_name x) (r_name y)
                          && (r_val x =? r_val y) && Bool.eqb (r_def x) (r_def y) in
   list_eqb req (t_ids a) (t_ids b) && list_eqb req (t_keys a) (t_keys b) && list_eqb req (t_certs a) (t_certs b).
-Fixpoint run_trace (h : list (option nat * op)) (s : st) : list sexp :=
+Fixpoint run_trace (h : list (option nat * op)) (s : cst) : list sexp :=
   match h with
   | [] => []
   | (f, o) :: r =>
@@ -104,7 +104,7 @@ Definition s_skc (a : skc) : sexp :=
 
 Definition run (req : sexp) : sexp :=
   match req with
-  | SList [SNum 1; SList h] => or_bad (odo h <- omap as_fop h ;; Some (SList (run_trace h init_st)))
+  | SList [SNum 1; SList h] => or_bad (odo h <- omap as_fop h ;; Some (SList (run_trace h init_core)))
   | SList [SNum 2; a; o] => or_bad (odo a <- as_skc a ;; odo o <- as_op o ;; Some (s_opt s_skc (spec_step o a)))
   | SList [SNum 3; a; g] => or_bad (odo a <- as_skc a ;; odo g <- as_args g ;; Some (s_opt s_signer (signer_of g a)))
   | SList [SNum 4; a] => or_bad (odo a <- as_skc a ;; Some (s_bool (s_defaults_ok a)))
